@@ -22,6 +22,7 @@ def main():
              'non-kern spine',
         mc=[('MC_SpinePaths', 'MC_SpinePaths_opts.cfg', 'MC_SpinePaths(FilterIdentity, SubsequenceLaw, CommuteLaw)')],
         populations=[('main', dp.sess_c05, 50, 900, {}),
+                     ('multi_character_signifiers', dp.sess_c05, 8, 150, {'profile': 'multi_sigs'}),
                      ('all_pairs', dp.sess_c05_allpairs, 3, 50, {})],
         nontrivial=lambda s: bool(set(s['tags']) & {'chord', 'non-kern', 'all-pairs'}))
 
